@@ -81,6 +81,10 @@ def cases(quick, rng):
         elif kind == 'ft':
             for x, prec in items[::2 if quick else 1]:
                 C.append({'f': 'ft', 'a': [x, prec]})
+            # digits beyond the fifth decimal (which both implementations treat as noise): the ports must still agree
+            for k, (x, prec) in enumerate(items[::14 if quick else 3]):
+                for r in (4e-6, 5e-6, 6e-6, 9.5e-6, 1.5e-7)[k % 5:][:2]:
+                    C.append({'f': 'ft', 'a': [float(x) + r, prec]})
         elif kind == 'ph':
             for fields, sep in items:
                 C.append({'f': 'ph', 'a': [sep.join(fields)]})
